@@ -1683,6 +1683,84 @@ func main() {
 			c.Incomplete("D2: budget hit before all harness-built names were evaluated")
 		}
 
+		// ---------------- direction 1, size pass (before the field products, so that a budget stop never cuts it): the names are chosen by the SIZE of their encoding, not by content.
+		// Every place where the DER length encoding changes shape (content length 127|128, 255|256, 65535|65536;
+		// thorough: 16777215|16777216) is crossed at every nesting level of a name: (a) one value of k characters in
+		// CommonName resp. OrganizationalUnit for every k in [L-27, L+1] (value, AttributeTypeAndValue, RDN and
+		// RDNSequence bodies are k, k+c1, k+c2, k+c3 with small constants, so each body takes both L-1 and L);
+		// (b) the same sizes reached by MANY ordinary values (<= 190 bytes each): a multi-valued RDN whose body,
+		// and a name whose body, sweeps across 65535|65536 one byte at a time.
+		fidx := map[string]int{}
+		for i, e := range d.ef {
+			if e.idx != extraField {
+				fidx[fields[e.idx].name] = i
+			}
+		}
+		var sizeJobs [][]choice
+		bounds := []int{128, 256, 65536}
+		if !c.Quick() {
+			bounds = append(bounds, 16777216)
+		}
+		for _, L := range bounds {
+			for k := L - 27; k <= L+1; k++ {
+				sizeJobs = append(sizeJobs, []choice{{F: fidx["CommonName"], Len: [][2]int{{1, k}}}})
+				sizeJobs = append(sizeJobs, []choice{{F: fidx["OrganizationalUnit"], Len: [][2]int{{1, k}}}})
+			}
+		}
+		for m := 1; m <= 118; m++ {
+			// one RDN of 325 values of 190 bytes, one of 150 and one of m: the SET body sweeps 65495+m .. (crosses 65535|65536)
+			sizeJobs = append(sizeJobs, []choice{{F: fidx["OrganizationalUnit"], Len: [][2]int{{325, 190}, {1, 150}, {1, m}}}})
+			// 325 values of 190 bytes, plus Province of 100 and Locality of m bytes: the RDNSequence body sweeps across 65535|65536
+			sizeJobs = append(sizeJobs, []choice{{F: fidx["OrganizationalUnit"], Len: [][2]int{{325, 190}}},
+				{F: fidx["Province"], Len: [][2]int{{1, 100}}}, {F: fidx["Locality"], Len: [][2]int{{1, m}}}})
+		}
+		var smu sync.Mutex
+		seenLen := map[int]map[int]bool{}
+		done = c.Parallel(len(sizeJobs), func(wk, i int) {
+			if c.TimeUp() {
+				c.Incomplete("D1 size pass: budget hit")
+				return
+			}
+			h := ev.Hist{}
+			d.run(sizeJobs[i], h, c, rep)
+			h["D1 size pass: names evaluated"]++
+			c.Merge(h)
+			n, _, _, _, _, _, _ := d.build(sizeJobs[i])
+			if der, err := zasn1.Marshal(n.ToRDNSequence()); err == nil {
+				mine := map[int]map[int]bool{}
+				contentLengths(der, 0, mine)
+				smu.Lock()
+				for lv, m := range mine {
+					if seenLen[lv] == nil {
+						seenLen[lv] = map[int]bool{}
+					}
+					for l := range m {
+						for _, L := range bounds {
+							if l == L-1 || l == L {
+								seenLen[lv][l] = true
+							}
+						}
+					}
+				}
+				smu.Unlock()
+			}
+		})
+		if !done {
+			c.Incomplete("D1 size pass: budget hit before all names were evaluated")
+		}
+		hit := map[string][]int{}
+		for lv, name := range []string{"RDNSequence body", "RDN (SET) body", "AttributeTypeAndValue body", "value"} {
+			for _, L := range bounds {
+				for _, l := range []int{L - 1, L} {
+					if seenLen[lv][l] {
+						hit[name] = append(hit[name], l)
+					} else if done {
+						c.Incomplete(fmt.Sprintf("D1 size pass: no name whose %s is %d bytes long", name, l))
+					}
+				}
+			}
+		}
+		c.Set("d1_size_pass", map[string]any{"names": len(sizeJobs), "length_boundaries": bounds, "content_lengths_reached_per_level": hit})
 		// ---------------- direction 1
 		nf := len(d.ef)
 		maxD := 3
@@ -1792,84 +1870,6 @@ func main() {
 		if !done {
 			c.Incomplete("D1: budget hit before all field combinations were enumerated")
 		}
-		// ---------------- direction 1, size pass: the names are chosen by the SIZE of their encoding, not by content.
-		// Every place where the DER length encoding changes shape (content length 127|128, 255|256, 65535|65536;
-		// thorough: 16777215|16777216) is crossed at every nesting level of a name: (a) one value of k characters in
-		// CommonName resp. OrganizationalUnit for every k in [L-27, L+1] (value, AttributeTypeAndValue, RDN and
-		// RDNSequence bodies are k, k+c1, k+c2, k+c3 with small constants, so each body takes both L-1 and L);
-		// (b) the same sizes reached by MANY ordinary values (<= 190 bytes each): a multi-valued RDN whose body,
-		// and a name whose body, sweeps across 65535|65536 one byte at a time.
-		fidx := map[string]int{}
-		for i, e := range d.ef {
-			if e.idx != extraField {
-				fidx[fields[e.idx].name] = i
-			}
-		}
-		var sizeJobs [][]choice
-		bounds := []int{128, 256, 65536}
-		if !c.Quick() {
-			bounds = append(bounds, 16777216)
-		}
-		for _, L := range bounds {
-			for k := L - 27; k <= L+1; k++ {
-				sizeJobs = append(sizeJobs, []choice{{F: fidx["CommonName"], Len: [][2]int{{1, k}}}})
-				sizeJobs = append(sizeJobs, []choice{{F: fidx["OrganizationalUnit"], Len: [][2]int{{1, k}}}})
-			}
-		}
-		for m := 1; m <= 118; m++ {
-			// one RDN of 325 values of 190 bytes, one of 150 and one of m: the SET body sweeps 65495+m .. (crosses 65535|65536)
-			sizeJobs = append(sizeJobs, []choice{{F: fidx["OrganizationalUnit"], Len: [][2]int{{325, 190}, {1, 150}, {1, m}}}})
-			// 325 values of 190 bytes, plus Province of 100 and Locality of m bytes: the RDNSequence body sweeps across 65535|65536
-			sizeJobs = append(sizeJobs, []choice{{F: fidx["OrganizationalUnit"], Len: [][2]int{{325, 190}}},
-				{F: fidx["Province"], Len: [][2]int{{1, 100}}}, {F: fidx["Locality"], Len: [][2]int{{1, m}}}})
-		}
-		var smu sync.Mutex
-		seenLen := map[int]map[int]bool{}
-		done = c.Parallel(len(sizeJobs), func(wk, i int) {
-			if c.TimeUp() {
-				c.Incomplete("D1 size pass: budget hit")
-				return
-			}
-			h := ev.Hist{}
-			d.run(sizeJobs[i], h, c, rep)
-			h["D1 size pass: names evaluated"]++
-			c.Merge(h)
-			n, _, _, _, _, _, _ := d.build(sizeJobs[i])
-			if der, err := zasn1.Marshal(n.ToRDNSequence()); err == nil {
-				mine := map[int]map[int]bool{}
-				contentLengths(der, 0, mine)
-				smu.Lock()
-				for lv, m := range mine {
-					if seenLen[lv] == nil {
-						seenLen[lv] = map[int]bool{}
-					}
-					for l := range m {
-						for _, L := range bounds {
-							if l == L-1 || l == L {
-								seenLen[lv][l] = true
-							}
-						}
-					}
-				}
-				smu.Unlock()
-			}
-		})
-		if !done {
-			c.Incomplete("D1 size pass: budget hit before all names were evaluated")
-		}
-		hit := map[string][]int{}
-		for lv, name := range []string{"RDNSequence body", "RDN (SET) body", "AttributeTypeAndValue body", "value"} {
-			for _, L := range bounds {
-				for _, l := range []int{L - 1, L} {
-					if seenLen[lv][l] {
-						hit[name] = append(hit[name], l)
-					} else if done {
-						c.Incomplete(fmt.Sprintf("D1 size pass: no name whose %s is %d bytes long", name, l))
-					}
-				}
-			}
-		}
-		c.Set("d1_size_pass", map[string]any{"names": len(sizeJobs), "length_boundaries": bounds, "content_lengths_reached_per_level": hit})
 		d.flush(c)
 		reentrantPhase(c)
 
